@@ -461,6 +461,13 @@ fn run_huge(delta: i64, log2: u32, spec: &RngSpec, obs: &mut Obs) -> Vec<Violati
         b.select(&pop, &mut rng).map(|_| ()).map_err(|e| format!("{e:?}"))
     });
     report("Box<dyn DynSelector>(Random)", r);
+    for k in [1usize, 2, 3] {
+        let r = catch(|| {
+            let t = Tournament::new(NonZeroUsize::new(k).unwrap_or(NonZeroUsize::MIN));
+            t.select(&pop, &mut rng).map(|_| ()).map_err(|e| format!("{e:?}"))
+        });
+        report(&format!("Tournament({k})"), r);
+    }
     obs.count("draws", rng.draws());
     obs.nontrivial(mix(mix(0x4a6e, delta as u64), u64::from(log2)));
     v
@@ -1002,7 +1009,7 @@ impl Check for C06 {
                     rng,
                 }
             }
-            2 if g.chance(1, 400) => Sc::Huge { delta: *g.pick(&[-1i64, 0, 0, 1, 12345]), log2: *g.pick(&[32u32, 32, 33]), rng },
+            2 if g.chance(1, 400) => Sc::Huge { delta: *g.pick(&[-1i64, 0, 0, 1, 12345, 1 << 30, (1 << 30) + 7]), log2: *g.pick(&[31u32, 32, 32, 33]), rng },
             2 => Sc::Array {
                 sel: g.below(4) as u8,
                 tsize: g.urange(1, 6),
